@@ -21,8 +21,17 @@ Verdict(o) ==
     [] o.kind = "xlabel" -> IF o.tree \in DOMAIN Trees THEN VerdictXLabel(o, Trees[o.tree]) ELSE V(o.id, FALSE, "malformed|no-tree", <<>>)
     [] OTHER -> V(o.id, FALSE, "malformed|kind", <<>>)
 
+(* One initial state that does not touch the observations: TLC evaluates a  *)
+(* constant like Obs afresh for every initial state (the file would be      *)
+(* parsed W times) but only once for all the steps.  The first step fans    *)
+(* out to W lanes so every worker is used.                                  *)
 VARIABLE i
-Init == i \in 1..(IF N < W THEN N ELSE W) /\ PrintT(ToJson(Verdict(Obs[i])))
-Next == i + W <= N /\ i' = i + W /\ PrintT(ToJson(Verdict(Obs[i'])))
+Init == i = 0
+Next == \/ /\ i = 0
+           /\ i' \in 1..(IF N < W THEN N ELSE W)
+           /\ PrintT(ToJson(Verdict(Obs[i'])))
+        \/ /\ i > 0 /\ i + W <= N
+           /\ i' = i + W
+           /\ PrintT(ToJson(Verdict(Obs[i'])))
 Spec == Init /\ [][Next]_i
 =============================================================================
